@@ -87,6 +87,11 @@ def _run_check(ctx, pid, tier):
         definite_assignment(ctx)
     except AnalysisError as e:
         err = "AnalysisError: %s" % e
+        try:
+            # a rule that could not recognise the code may have stopped because a local is never assigned: report that as what it is
+            definite_assignment(ctx)
+        except Exception:
+            pass
     except RecursionError as e:
         err = "RecursionError: %s" % e
     except MemoryError:
